@@ -47,21 +47,22 @@ def run(tier, replay=None):
     first = True
     # the same law for a library generated on several ranks (the strings are produced in per-rank blocks and reassembled)
     libs = [(name, n, 1) for name, n in libs] + ([("core_maths", 4, 3)] if tier == "quick" else [("core_maths", 4, 2), ("core_maths", 4, 5), ("ext_maths", 3, 3)])
+    libs.append(("core_maths", 4, 0))          # P = 0: generated a second time into the directory that holds the first generation
     for name, n, P in libs:
-        if P == 1:
+        if P <= 1:
             L, _ = common.gen_library(r, s, name, n)
         else:
             L, _ = common.gen_library(r, scratch.make(), name, n, P=P)
         if L is None:
             continue
-        ev, failed, det, _ = common.judge_library(r, L, "%s_n%d%s" % (name, n, "" if P == 1 else "_P%d" % P), common.C02_CLAUSES, c03=False)
+        ev, failed, det, _ = common.judge_library(r, L, "%s_n%d%s" % (name, n, "" if P == 1 else "_regenerated" if P == 0 else "_P%d" % P), common.C02_CLAUSES, c03=False)
         lines = [e for e in ev if e["kind"] == "line"]
         decided = sum(1 for e in lines if e["clsTree"] >= 0)
         for i, cl in sorted(failed.items())[:10]:
             e = ev[i]
-            key = "%s:n%d:%sline%s" % (name, n, "" if P == 1 else "P%d:" % P, e.get("i", "hdr"))
+            key = "%s:n%d:%sline%s" % (name, n, "" if P == 1 else "regenerated:" if P == 0 else "P%d:" % P, e.get("i", "hdr"))
             r.violation(key, "Library.tla clauses %s violated: %s" % (cl, det[i]), {"runname": name, "n": n, "event": e})
-        r.add("library", evaluations=len(lines), nontrivial=decided, traces=1, **{"%s_n%d%s" % (name, n, "" if P == 1 else "_P%d" % P): [len(lines), decided]})
+        r.add("library", evaluations=len(lines), nontrivial=decided, traces=1, **{"%s_n%d%s" % (name, n, "" if P == 1 else "_regenerated" if P == 0 else "_P%d" % P): [len(lines), decided]})
         if first and lines:
             r.sample({"library": name, "n": n, "event": lines[min(7, len(lines) - 1)]})
             if tier == "thorough" or n == 4:
